@@ -240,6 +240,7 @@ func runC08(c *Ctx) {
 	} {
 		c.run("capreconnect", map[string]string{"rounds": rounds})
 	}
+	c.run("capsharedconfig", map[string]string{"scenario": "two clients built from one SupportedCaps map"})
 	c.run("tagsqueue", map[string]string{"scenario": "write blocked, tagged event queued, CAP DEL, drain"})
 	r := c.R
 	r.Rule = "real sessions: server behaviours over CAP LS (0-3 '*' continuation lines), ACK (of what was requested, of a subset, of junk), NAK, NEW, DEL in any order, capability lists drawn from supported/unsupported/junk with and without values, " +
